@@ -430,6 +430,54 @@ fn overflow_literal_views(src: &mut Src, obs: &mut Obs) -> Res {
 /// whole-valued doubles of that size, integers above i64::MAX.  How the engine compares such pairs is
 /// not judged here - only that it compares them the same way on `Value` and on V1, whose integer,
 /// unsigned and float variants each answer to exactly one accessor.
+/// member names that look like paths (`max.price`, `l[0]`, `a.b.c`) beside the nested members those texts
+/// would spell: a name is one step, on every type - whatever shortcut a type offers for resolving path texts
+fn random_pathlike_names(src: &mut Src, obs: &mut Obs) -> Res {
+    let nums = [J::Int(5), J::Int(20), J::Int(500), J::Float(20.0), J::Str("20".into()), J::Null];
+    let mut pick = |src: &mut Src| src.pick(&nums).clone();
+    let mut limits: Vec<(String, J)> = vec![];
+    if !src.chance(1, 5) {
+        limits.push(("max.price".into(), pick(src)));
+    }
+    if !src.chance(1, 4) {
+        limits.push(("max".into(), J::Obj(vec![("price".into(), pick(src))])));
+    }
+    limits.push(("l[0]".into(), pick(src)));
+    limits.push(("l".into(), J::Arr(vec![pick(src)])));
+    let n = 1 + src.below(4);
+    let items: Vec<J> = (0..n).map(|_| J::Obj(vec![("price".into(), pick(src)), ("a.b".into(), pick(src)), ("a".into(), J::Obj(vec![("b".into(), pick(src))]))])).collect();
+    let doc = J::Obj(vec![("items".into(), J::Arr(items)), ("limits".into(), J::Obj(limits)), ("a.b".into(), pick(src)), ("a".into(), J::Obj(vec![("b".into(), pick(src))]))]).sorted();
+    let op = src.pick(&Op::ALL).text();
+    let text = match src.below(9) {
+        0 => format!("$.items[?@.price {} $.limits['max.price']]", op),
+        1 => format!("$.items[?@.price {} $.limits.max.price]", op),
+        2 => format!("$.items[?$.limits[\"max.price\"] {} @.price]", op),
+        3 => format!("$.items[?@.price {} $.limits['l[0]']]", op),
+        4 => format!("$.items[?@.price {} $['a.b']]", op),
+        5 => format!("$.items[?@['a.b'] {} @.a.b]", op),
+        6 => "$.items[?$.limits['max.price']]".to_string(),
+        7 => format!("$.items[?value($['a.b']) {} @.price]", op),
+        _ => format!("$.items[?@.price {} $.a.b]", op),
+    };
+    obs.eval(2);
+    obs.label("path-like-names");
+    obs.nontrivial(&(text.as_str(), doc.text()), || json!({"query": text, "doc": doc.to_value()}));
+    let rv = run_value(&doc.to_value(), &text);
+    let r1 = run_v1(&V1::from_j(&doc), &text).map(|x| x.0);
+    let same = match (&rv, &r1) {
+        (Ok(a), Ok(b)) => rows_equal(a, b),
+        (Err(a), Err(b)) => a.starts_with("Err") && b.starts_with("Err"),
+        _ => false,
+    };
+    if !same {
+        return Err(Failure::new(
+            "a query whose operand names a member with a path-like name selects different nodes on serde_json::Value and on a faithful Queryable type",
+            json!({"query": text, "doc": doc.to_value(), "on_value": show(&rv), "on_other_type": show(&r1)}),
+        ));
+    }
+    Ok(())
+}
+
 fn random_number_views(src: &mut Src, obs: &mut Obs) -> Res {
     if src.chance(1, 6) {
         return overflow_literal_views(src, obs);
@@ -722,6 +770,7 @@ pub fn prop() -> Prop {
             Sub { name: "random-object-equality", kind: Kind::Random { f: random_object_equality, quick: 64_000, thorough: 1_280_000, len: 300 } },
             Sub { name: "random-shared-nodes", kind: Kind::Random { f: random_shared_nodes, quick: 120_000, thorough: 2_400_000, len: 500 } },
             Sub { name: "random-extension-views", kind: Kind::Random { f: random_extension_views, quick: 120_000, thorough: 2_400_000, len: 500 } },
+            Sub { name: "random-pathlike-names", kind: Kind::Random { f: random_pathlike_names, quick: 30_000, thorough: 600_000, len: 64 } },
             Sub { name: "random-number-views", kind: Kind::Random { f: random_number_views, quick: 60_000, thorough: 1_200_000, len: 64 } },
             Sub { name: "random-one-pair-get", kind: Kind::Random { f: random_one_pair_get, quick: 120_000, thorough: 2_400_000, len: 500 } },
             Sub { name: "random-unsorted", kind: Kind::Random { f: random_unsorted, quick: 160_000, thorough: 3_200_000, len: 500 } },
